@@ -58,6 +58,7 @@ FAMILIES = {
     "names-twin": dict(n_axes=1, layout="onaxis", n_glyphs=3, composites=0.0, mapped=0.0, post=lambda m, r: M.naming(m, r, collide=0.5, fea=0.2, twin=True)),
     "bnd-static": dict(n_axes=0, n_glyphs=8, composites=0.4, transforms="scale", vertical=True, post=lambda m, r: M.boundary(m, r)),
     "bnd-var1": dict(n_axes=1, layout="onaxis", n_glyphs=8, composites=0.4, post=lambda m, r: M.boundary(m, r)),
+    "bnd-corners": dict(n_axes=2, layout="corners", n_glyphs=5, composites=0.2, mapped=0.0, post=lambda m, r: M.boundary(m, r, kind="corner-delta")),
     "bnd-var2": dict(n_axes=2, layout="onaxis", n_glyphs=6, composites=0.4, nested=True, post=lambda m, r: M.boundary(m, r)),
     "rules-var1": dict(n_axes=1, layout="onaxis", n_glyphs=11, composites=0.0, curves="lines", ext_glyph_names=M.RULE_GLYPHS, mapped=0.5, post=lambda m, r: M.add_rules(m, r)),
     "rules-var2": dict(n_axes=2, layout="onaxis", n_glyphs=11, composites=0.0, curves="lines", ext_glyph_names=M.RULE_GLYPHS, mapped=0.5, post=lambda m, r: M.add_rules(m, r)),
@@ -93,7 +94,7 @@ BY_PROPERTY = {
     "C10": ["marks-static", "marks-var1", "marks-propagate", "marks-var2", "marks-intermediate", "marks-propagate-static", "marks-multi", "marks-propagate", "marks-stacked"],
     "C16": ["rules-var1", "rules-var2", "rules-var2", "rules-var3"],
     "C18": ["names-var1", "names-var2", "names-static", "names-var1-collide", "names-twin", "names-var1-collide"],
-    "C19": ["bnd-static", "bnd-var1", "bnd-var2", "bnd-static"],
+    "C19": ["bnd-static", "bnd-var1", "bnd-var2", "bnd-static", "bnd-corners"],
     "C14": ["var1-noorder", "var2-mixed-sparse", "var1-mixedglyphs", "kern-var1", "kern-intermediate", "kern-divergent"],
 }
 
